@@ -533,6 +533,15 @@ pub fn run(ctx: &Ctx) -> Report {
     rep.rule = "Cases: valid caches written from generated mappings x 1..3 corruption operators: set any 32-bit field of any class / member / by-params record or of the header to {0,1,2,count-1,count,count+1 (for each of the four header counts),2^31,2^32-2,2^32-1,small,old+-1}; swap / duplicate records; 1..7 random bit flips; corrupt a string's LEB128 prefix (0, unterminated, huge, +1, u64::MAX, 2^63, u32::MAX, 2^32) or its UTF-8; random bytes behind a valid header; zeroed string tail. Thorough adds, for files < 600 bytes, every (field, value) edit. Queries: the uncorrupted file's names plus unknowns; lines {0,1,2, all range boundaries +-1, 2^31, 2^32-2..2^32, 2^64-2, 2^64-1}; params; throwables; text and typed traces; signatures. Oracle: parse returns without panic; on Ok every query returns without panic (overflow checks on) and every returned &str is empty or lies inside the buffer's address range or inside one of the query's strings. ProguardCache::test()/display()/debug_* are excluded (assertion / pretty-printing helpers). evaluations = queries issued on accepted corrupted buffers. Non-trivial = distinct corrupted buffers that parse and for which >=1 class lookup succeeds.".into();
     rep.assumptions = vec!["buffers are 8-byte aligned".into(), "harness built with overflow-checks=on so arithmetic overflow is observable as a panic".into()];
     rep.run_stage("corrupt", corrupt_case, ctx.cases(150_000, 9_000_000), check_case);
+    {
+        let thorough = ctx.tier == crate::engine::Tier::Thorough;
+        let mut dst = Stats::new();
+        dst.cases += 1;
+        if let Err(f) = super::c13::check_deep(thorough, &mut dst) {
+            rep.fail("deep", json!({"thorough": thorough}), f);
+        }
+        rep.stats.merge(dst);
+    }
     rep.run_stage("tall", tall_corrupt_case, ctx.cases(300, 12_000), check_case);
     rep.run_stage("wide", wide_corrupt_case, ctx.cases(400, 12_000), check_wide);
     if ctx.tier == crate::engine::Tier::Thorough {
@@ -547,6 +556,7 @@ pub fn replay(stage: &str, case: &Value) -> Check {
     let mut st = Stats::new();
     let de = |e: serde_json::Error| Fail::new("harness-replay", e.to_string());
     match stage {
+        "deep" => super::c13::check_deep(case["thorough"].as_bool().unwrap_or(false), &mut st),
         "wide" => check_wide(&serde_json::from_value(case.clone()).map_err(de)?, &mut st),
         "corrupt" | "tall" => check_case(&serde_json::from_value(case.clone()).map_err(de)?, &mut st),
         "exhaustive-fields" => check_exhaustive(&serde_json::from_value(case.clone()).map_err(de)?, &mut st),
